@@ -255,13 +255,13 @@ func genQueryResult(ctx context.Context, submitterc chan []byte, url string, pat
 		rawMsg, err := dataFetch(url)
 		if err != nil {
 			logger.Error(err)
-			errc <- err
+			reportErr(ctx, errc, err)
 			return
 		}
 		msgReturn, err := dataParse(rawMsg, pathStr)
 		if err != nil {
 			logger.Error(err)
-			errc <- err
+			reportErr(ctx, errc, err)
 			return
 		}
 		logger.TimeTrack(startTime, "TFetch", map[string]interface{}{"GroupID": ctx.Value(ctxKey("GroupID")), "RequestID": ctx.Value(ctxKey("RequestID"))})
@@ -406,7 +406,7 @@ func recoverSign(ctx context.Context, signc chan *vss.Signature, suite suites.Su
 				if sign == nil || sign.Signature == nil || sign.Content == nil {
 					err := errors.New("Detected nil pointer and skipped")
 					logger.Error(err)
-					errc <- err
+					reportErr(ctx, errc, err)
 					continue
 				}
 				if own == nil {
@@ -414,7 +414,7 @@ func recoverSign(ctx context.Context, signc chan *vss.Signature, suite suites.Su
 				} else if sign.Index != own.Index || !bytes.Equal(sign.Content, own.Content) {
 					err := errors.New("share for another content or request type skipped")
 					logger.Error(err)
-					errc <- err
+					reportErr(ctx, errc, err)
 					continue
 				}
 
@@ -423,13 +423,13 @@ func recoverSign(ctx context.Context, signc chan *vss.Signature, suite suites.Su
 					sig, err := tbls.Recover(suite, pubPoly, sign.Content, signShares, nbThreshold, nbParticipants)
 					if err != nil {
 						logger.Error(err)
-						errc <- err
+						reportErr(ctx, errc, err)
 						continue
 					}
 
 					if err = bls.Verify(suite, pubPoly.Commit(), sign.Content, sig); err != nil {
 						logger.Error(err)
-						errc <- err
+						reportErr(ctx, errc, err)
 						continue
 					}
 					x, y := sign.ToBigInt()
@@ -438,7 +438,7 @@ func recoverSign(ctx context.Context, signc chan *vss.Signature, suite suites.Su
 					//Contract will append sender address to content to verify if it is a right submitter
 					t := len(sign.Content) - addrLen
 					if t < 0 {
-						errc <- errors.New("length of content less than 0")
+						reportErr(ctx, errc, errors.New("length of content less than 0"))
 						continue
 					}
 
@@ -512,6 +512,15 @@ func reportQueryResult(ctx context.Context, chain onchain.ProxyAdapter, queryTyp
 	}()
 	return
 }
+// reportErr hands err to the pipeline's error fan-in unless the query context is done
+// (the fan-in stops reading then: a bare send would block the stage for ever).
+func reportErr(ctx context.Context, errc chan error, err error) {
+	select {
+	case errc <- err:
+	case <-ctx.Done():
+	}
+}
+
 func padOrTrim(bb []byte, size int) []byte {
 	l := len(bb)
 	if l == size {
